@@ -74,6 +74,7 @@ def run(P, C):
                 i = f.strip(f.ch(f.strip(n["ch"][0]))[0])
             else:
                 return i, idx
+    zd1(P, C)
 
     def local_id(i):
         i = f.strip(i)
@@ -249,3 +250,63 @@ def run(P, C):
             ok = not before
             det += ": `%s`; member writes that can precede it: %d" % (g["text"].replace("this->", ""), len(before))
         C.ob("VG-3", "permuteDimensions", k, ok, f.loc(g["node"]) if g else f.where(), det)
+
+
+def zd1(P, C):
+    """ZD-1: permuteDimensions never indexes its ndim-sized scratch arrays when ndim is 0."""
+    C.rule("ZD-1", "permuteDimensions accepts the empty permutation for an empty table (its validation does), so everything that takes element 0 "
+           "of an array of ndim elements, or declares a variable-length array of ndim elements, is dominated by an exit under ndim == 0", floor=1)
+    f = [g for g in P.fns("permuteDimensions") if g.cls == ts.CLS and g.unit == "driver"][0]
+    # hazards: constant-index subscripts of locals sized by ndim, VLAs of extent ndim
+    sized = {}
+    hazards = []
+    for i in f.walk():
+        if f.k(i) == "DeclStmt":
+            for d in f.nodes[i]["decls"]:
+                if d.get("init", -1) >= 0 and any(f.k(y) == "CXXNewExpr" and "ndim" in f.render(y) for y in f.walk(d["init"])):
+                    sized[d["id"]] = i
+                if d.get("vla") or ("[" in d.get("type", "") and "ndim" in f.render(i) and "new" not in f.render(i)):
+                    hazards.append((i, "variable-length array of ndim elements"))
+    for i in f.walk():
+        if f.k(i) in ("ArraySubscriptExpr", "CXXOperatorCallExpr"):
+            ch = f.nodes[i]["ch"]
+            if f.k(i) == "CXXOperatorCallExpr" and f.nodes[i].get("opcall") != "[]":
+                continue
+            base, idx = f.strip(ch[-2]), f.strip(ch[-1])
+            if f.k(base) == "DeclRefExpr" and f.nodes[base]["decl"]["id"] in sized and f.nodes[idx].get("cv") == 0:
+                hazards.append((i, "element 0 of %s" % f.var_name(f.nodes[base]["decl"]["id"])))
+    # the guard: an IfStmt on ndim == 0 (or !ndim) whose then-branch leaves the function
+    guards = []
+    for i in f.walk():
+        if f.k(i) != "IfStmt":
+            continue
+        c, neg = core.cond_polarity(f, f.nodes[i]["cond"])
+        n = f.nodes[c]
+        zero = False
+        if n["k"] == "BinaryOperator" and n["op"] == "==" and ts.root_member(f, n["ch"][0]) and ts.root_member(f, n["ch"][0])[0] == "ndim" and \
+                f.nodes[f.strip(n["ch"][1])].get("cv") == 0 and not neg:
+            zero = True
+        if n["k"] == "MemberExpr" and ts.root_member(f, c) and ts.root_member(f, c)[0] == "ndim" and neg:
+            zero = True
+        if zero and any(f.k(y) in ("ReturnStmt", "CXXThrowExpr") for y in f.walk(f.nodes[i]["then"])):
+            guards.append(i)
+    pos = f.node_positions()
+    dom = f.dominators()
+
+    def at(i):
+        while i >= 0 and i not in pos:
+            i = f.parent[i]
+        return pos.get(i)
+    bad = []
+    if guards:
+        pg = at(f.strip(f.nodes[guards[0]]["cond"]))
+        for (h, what) in hazards:
+            ph = at(h)
+            if not (pg and ph and ((pg[0] == ph[0] and pg[1] < ph[1]) or (pg[0] != ph[0] and pg[0] in dom.get(ph[0], ())))):
+                bad.append((h, what))
+    else:
+        bad = hazards
+    C.ob("ZD-1", "permuteDimensions", "empty-table", bool(hazards) and not bad, f.loc(bad[0][0]) if bad else f.where(),
+         ("%d uses that need ndim >= 1, all behind the exit for ndim == 0" % len(hazards)) if hazards and not bad else
+         "%s at %s is reached with ndim == 0 (the empty permutation of an empty table passes the validation)" % (bad[0][1], f.loc(bad[0][0])) if bad else
+         "no hazard found (scratch arrays no longer sized by ndim?)")
